@@ -6,8 +6,9 @@
 (*               the tokenizer on  " e "                                        *)
 (*  k = "embed": pre, s, ml, e, suf, o, fold and the observed run on            *)
 (*               pre " e " suf  (the string embedded in a larger text)           *)
-(*  k = "line":  text written by a real writer, idx, s: token idx must be        *)
-(*               STRING s                                                        *)
+(*  k = "line":  text written by a real writer with a string embedded in one      *)
+(*               position, idx, s, ntoks: token idx must be STRING s and the     *)
+(*               line must have ntoks tokens                                     *)
 EXTENDS TokenizerRec, TLC, Json, IOUtils
 
 Recs == ndJsonDeserialize(IOEnv.TRACE_FILE)
@@ -48,10 +49,14 @@ EmbedRec(r) ==
         ELSE IF ~Agrees(r, exp, "TokenSyntaxError") THEN Bad("embed.lex", exp)
         ELSE Good
 
+\* r.s is the value the token at r.idx must have (the hostile string, or the composite value it is
+\* a field of); r.ntoks is the number of tokens the same line has when written with a harmless
+\* string: a raw quote inside the quoted run would end the token early and change both.
 LineRec(r) ==
     LET exp == Expected(r.text, CfOf(r))
     IN  IF ~(r.err.id = "none" /\ Len(r.toks) >= r.idx /\ IsString(r.toks[r.idx], r.s))
             THEN Bad("line.token", [idx |-> r.idx, s |-> r.s])
+        ELSE IF Len(r.toks) # r.ntoks THEN Bad("line.count", r.ntoks)
         ELSE IF ~Agrees(r, exp, "TokenSyntaxError") THEN Bad("line.lex", exp)
         ELSE Good
 
